@@ -1,5 +1,8 @@
 import Knut.Wire
 import Knut.Model.FromSyntax
+import Knut.Model.JournalPrinter
+import Knut.Model.Check
+import Knut.Driver.C04
 /-! Driver op `loadtext`: file bytes → parser model → model directives → builder days, dumped canonically.
 The harness dumps the REAL loader's days (journal.FromPath + Build) in the same format. -/
 namespace Knut.Driver.Load
@@ -37,6 +40,22 @@ def handle (fields : List String) : Option String :=
       | .ok ds =>
         let bld := Builder.ofList ds
         s!"ok {bld.min} {bld.max} " ++ dump bld.build)
+  | ["c09roundtrip", j] => some (
+    -- model-level round trip: print the journal, read the printed text back with the parser model, print again
+    match (Knut.Driver.parseJournal j).map Knut.Driver.C04.load with
+    | some (.ok ids) =>
+      let days := (Builder.ofList (ids.map (·.2))).build
+      match Check.run days with
+      | .error _ => "rejected"
+      | .ok _ =>
+        let out := JournalPrinter.print days
+        match FromSyntax.loadText "" out.toUTF8.toList with
+        | .ok ds2 =>
+          let days2 := (Builder.ofList ds2).build
+          if (Check.run days2).isOk = false then "fail printed-journal-rejected"
+          else if JournalPrinter.print days2 = out then "ok" else "fail not-a-fixpoint"
+        | _ => "fail printed-journal-does-not-load"
+    | _ => "rejected")
   | _ => none
 
 end Knut.Driver.Load
